@@ -23,6 +23,7 @@ def freshSlots (fsd : List MFunc) (inputs : List (String × Val)) (ui : List (St
 def rightW (slots : List (String × Slot)) : Right
   | .cell o li, v => ∃ s, (o, s) ∈ slots ∧ slotHas s (.cell o li) v
   | .single o, v => ∃ s, (o, s) ∈ slots ∧ slotHas s (.single o) v
+  | .dictArr o, v => ∃ s, (o, s) ∈ slots ∧ slotHas s (.dictArr o) v
   | .tmp _, _ => False
   | _, _ => True
 
@@ -44,7 +45,8 @@ theorem slotsRight_of_nodup (slots sub : List (String × Slot)) (hn : (slots.map
     SlotsRight (rightW slots) sub := by
   intro o s hs
   have hm := hsub _ hs
-  refine ⟨fun li v => ⟨?_, fun h => ⟨s, hm, h⟩⟩, fun v => ⟨?_, fun h => ⟨s, hm, h⟩⟩⟩
+  refine ⟨fun li v => ⟨?_, fun h => ⟨s, hm, h⟩⟩, fun v => ⟨?_, fun h => ⟨s, hm, h⟩⟩, fun v => ⟨?_, fun h => ⟨s, hm, h⟩⟩⟩
+  · rintro ⟨s', hs', h⟩; rw [nodup_keys_functional slots o s s' hn hm hs']; exact h
   · rintro ⟨s', hs', h⟩; rw [nodup_keys_functional slots o s s' hn hm hs']; exact h
   · rintro ⟨s', hs', h⟩; rw [nodup_keys_functional slots o s s' hn hm hs']; exact h
 
@@ -88,12 +90,12 @@ theorem prefix_then_safe {J : FS → Prop} {fs : FS} {a b : List Ev} (ha : ∀ k
     rwa [crashAt_all fs a _ (Nat.le_refl _)] at this
 
 /-- `RunInfo._dump_all` of the repaired tree keeps the invariant at every prefix -/
-theorem dumpAll_safe (W : Right) (fs0 : FS) (inputs : List (String × Val)) (hW : ∀ p v, (∀ o li, p ≠ .cell o li) → (∀ o, p ≠ .single o) →
-    p.isTmp = false → W p v) (fs : FS) (hI : I W (akeys inputs) fs0 fs) : ∀ k, I W (akeys inputs) fs0 (crashAt fs (dumpAllEvs false inputs) k) := by
+theorem dumpAll_safe (W : Right) (fs0 : FS) (inputs : List (String × Val))
+    (hW : ∀ p v, (∀ o li, p ≠ .cell o li) → (∀ o, p ≠ .single o) → (∀ o, p ≠ .dictArr o) → p.isTmp = false → W p v) (fs : FS) (hI : I W (akeys inputs) fs0 fs) : ∀ k, I W (akeys inputs) fs0 (crashAt fs (dumpAllEvs false inputs) k) := by
   have hins : Safe (I W (akeys inputs) fs0) (inputs.flatMap fun (kv : String × Val) => writeEvs false (.input kv.1) kv.2) :=
-    Safe.flatMap _ _ fun kv _ => safe_write W _ fs0 _ _ rfl (hW _ _ (by intro o li e; cases e) (by intro o e; cases e) rfl) (by intro e; cases e)
+    Safe.flatMap _ _ fun kv _ => safe_write W _ fs0 _ _ rfl (hW _ _ (by intro o li e; cases e) (by intro o e; cases e) (by intro o e; cases e) rfl) (by intro e; cases e)
   have hdfl : Safe (I W (akeys inputs) fs0) (writeEvs false .defaults (metaVal "defaults")) :=
-    safe_write W _ fs0 _ _ rfl (hW _ _ (by intro o li e; cases e) (by intro o e; cases e) rfl) (by intro e; cases e)
+    safe_write W _ fs0 _ _ rfl (hW _ _ (by intro o li e; cases e) (by intro o e; cases e) (by intro o e; cases e) rfl) (by intro e; cases e)
   have h1 : Safe (I W (akeys inputs) fs0) ((inputs.flatMap fun (kv : String × Val) => writeEvs false (.input kv.1) kv.2) ++
       writeEvs false .defaults (metaVal "defaults")) := Safe.append hins hdfl
   have hpost : AllMeta (akeys inputs) (applyAll fs ((inputs.flatMap fun (kv : String × Val) => writeEvs false (.input kv.1) kv.2) ++
@@ -105,7 +107,7 @@ theorem dumpAll_safe (W : Right) (fs0 : FS) (inputs : List (String × Val)) (hW 
       obtain ⟨kv, hkv, e⟩ := List.mem_map.mp hn
       exact ⟨kv, hkv, by rw [e]⟩
     · exact comp_after_write _ _ _ _ rfl (Or.inl rfl)
-  have h2 := trip_runInfo W (akeys inputs) fs0 (metaVal "run_info") (hW _ _ (by intro o li e; cases e) (by intro o e; cases e) rfl)
+  have h2 := trip_runInfo W (akeys inputs) fs0 (metaVal "run_info") (hW _ _ (by intro o li e; cases e) (by intro o e; cases e) (by intro o e; cases e) rfl)
     _ (h1.final fs hI) hpost
   intro k
   have : dumpAllEvs false inputs = ((inputs.flatMap fun (kv : String × Val) => writeEvs false (.input kv.1) kv.2) ++
@@ -132,14 +134,282 @@ theorem compare_ok (W : Right) (fs0 fs : FS) (inputs : List (String × Val)) (hI
     have hdd : readFile fs .defaults = .ok d := by simp [readFile, hd]
     simp [hm, hdd]
 
-theorem initStore_file (J : FS → Prop) (hJ : ∀ d, Safe J [.mkdirp d]) (cfg : Cfg) (hd : cfg.dict = false) (fs : FS) :
-    ∀ outs : List String, (initStore cfg fs outs).res = .ok [] ∧ Safe J (initStore cfg fs outs).evs := by
-  intro outs
-  induction outs with
-  | nil => exact ⟨rfl, Safe.nil _⟩
-  | cons o rest ih =>
-    simp only [initStore, hd, Bool.not_false, ↓reduceIte]
-    exact ⟨ih.1, Safe.append (a := [.mkdirp (.arr o)]) (hJ _) ih.2⟩
+/-- `init_store` on a folder that satisfies the invariant (repaired protocol): it succeeds, makes directories only, and the
+    dicts it loads are the persisted ones (`MemOk`); every `DictArray` output of the plan gets an entry -/
+theorem initStore_spec (W : Right) (J : FS → Prop) (hJ : ∀ d, Safe J [.mkdirp d]) (fs : FS) (hInv : Inv W fs) :
+    ∀ plan : List (String × Bool), ∃ mem, (initStore false fs plan).res = .ok mem ∧ MemOk W fs mem ∧
+      (∀ o, (o, true) ∈ plan → alookup mem o ≠ none) ∧ Safe J (initStore false fs plan).evs := by
+  intro plan
+  induction plan with
+  | nil => exact ⟨[], rfl, (fun o cs h => by simp [alookup] at h), (fun o h => by cases h), Safe.nil _⟩
+  | cons od rest ih =>
+    obtain ⟨o, d⟩ := od
+    obtain ⟨mem, h1, h2, h3, h4⟩ := ih
+    cases d with
+    | false =>
+      simp only [initStore, Bool.not_false, ↓reduceIte]
+      refine ⟨mem, h1, h2, ?_, Safe.append (a := [.mkdirp (.arr o)]) (hJ _) h4⟩
+      intro o' ho'
+      rcases List.mem_cons.mp ho' with e | e
+      · cases e
+      · exact h3 o' e
+    | true =>
+      simp only [initStore, Bool.not_true, Bool.false_eq_true, ↓reduceIte]
+      rcases hInv (.dictArr o) rfl with hn | ⟨v, hv, hw⟩
+      · simp only [hn, Option.isSome_none, Bool.false_eq_true, ↓reduceIte, h1, Except.map]
+        refine ⟨(o, []) :: mem, rfl, ?_, ?_, h4⟩
+        · intro o' cs hl
+          simp only [alookup] at hl
+          split at hl
+          · next e => subst e; cases hl; exact Or.inl ⟨rfl, hn⟩
+          · exact h2 o' cs hl
+        · intro o' ho'
+          simp only [alookup]
+          split
+          · simp
+          · next ne =>
+            rcases List.mem_cons.mp ho' with e | e
+            · cases e; exact absurd rfl ne
+            · exact h3 o' e
+      · simp only [hv, Option.isSome_some, ↓reduceIte, readFile, h1, Except.map]
+        refine ⟨(o, dictCells v) :: mem, rfl, ?_, ?_, h4⟩
+        · intro o' cs hl
+          simp only [alookup] at hl
+          split at hl
+          · next e => subst e; cases hl; exact Or.inr ⟨v, hv, hw, rfl⟩
+          · exact h2 o' cs hl
+        · intro o' ho'
+          simp only [alookup]
+          split
+          · simp
+          · next ne =>
+            rcases List.mem_cons.mp ho' with e | e
+            · cases e; exact absurd rfl ne
+            · exact h3 o' e
+
+/-- `_maybe_persist_memory` (repaired `dump`): safe when every array of the final store is a right content of its dict file -/
+theorem persist_safe (W : Right) (names : List String) (fs0 : FS) (store : List (String × Slot))
+    (hS : ∀ o sh mk cells, alookup store o = some (.array sh mk cells) → W (.dictArr o) (.tup (cells.map (·.2)))) :
+    ∀ plan : List (String × Bool), Safe (I W names fs0) (persistEvs false store plan) := by
+  intro plan
+  unfold persistEvs
+  apply Safe.flatMap
+  intro od _
+  cases od.2 with
+  | false => exact Safe.nil _
+  | true =>
+    simp only [Bool.not_true, Bool.false_eq_true, ↓reduceIte]
+    cases hl : alookup store od.1 with
+    | none => exact Safe.nil _
+    | some s =>
+      cases s with
+      | single _ => exact Safe.nil _
+      | array sh mk cells =>
+        exact Safe.append (a := [.mkdirp (.arr od.1)]) (safe_mkdirp _ _ _ _)
+          (safe_write W names fs0 _ _ rfl (hS _ _ _ _ hl) (by intro e; cases e))
+
+/-! ### what the uninterrupted run stores: keys and well-keyed cells -/
+
+/-- the cells of every array slot are keyed `0, 1, …` -/
+def WK (slots : List (String × Slot)) : Prop :=
+  ∀ o sh mk cells, (o, Slot.array sh mk cells) ∈ slots → cells.map (·.1) = List.range cells.length
+
+theorem runFuncWith_slots (fsd : List MFunc) (shapes : List (String × List Nat)) (masks : List (String × List Bool)) (env : Env) (f : MFunc)
+    (r : FuncResult) (h : runFuncWith opArray fsd shapes masks env f = .ok r) : r.slots.map (·.1) = f.outputs ∧ WK r.slots := by
+  have single : runSingle fsd env f = .ok r → r.slots.map (·.1) = f.outputs ∧ WK r.slots := by
+    intro h
+    obtain ⟨args, _, _, hs⟩ := runSingle_ok fsd env f r h
+    rw [hs]
+    refine ⟨by simp [List.map_map, Function.comp_def], ?_⟩
+    intro o sh mk cells hm
+    obtain ⟨_, _, e⟩ := List.mem_map.mp hm
+    cases e
+  unfold runFuncWith at h
+  cases hms : f.mapspec with
+  | none => simp only [hms] at h; exact single h
+  | some ms =>
+    simp only [hms] at h
+    by_cases he : ms.inputs.isEmpty = true
+    · simp only [he, ↓reduceIte] at h; exact single h
+    · simp only [he, Bool.false_eq_true, ↓reduceIte] at h
+      cases hh : f.outputs.head? with
+      | none => simp [hh] at h
+      | some o =>
+        simp only [hh] at h
+        cases hs : alookup shapes o with
+        | none => simp [hs] at h
+        | some sh =>
+          cases hk : alookup masks o with
+          | none => simp [hs, hk] at h
+          | some mk =>
+            simp only [hs, hk] at h
+            by_cases hlen : sh.length = mk.length
+            · simp only [hlen, ne_eq, not_true_eq_false, ↓reduceIte] at h
+              obtain ⟨args, _, _, hsl⟩ := runMappedWith_ok fsd env f ms sh mk r h
+              rw [hsl]
+              refine ⟨by simp [List.map_map, Function.comp_def], ?_⟩
+              intro o' sh' mk' cells hm
+              obtain ⟨_, _, e⟩ := List.mem_map.mp hm
+              cases e
+              simp [cellsOf, List.map_map, Function.comp_def]
+            · simp [hlen] at h
+
+theorem runGenWith_slots (R : Env → MFunc → M FuncResult)
+    (hR : ∀ env f r, R env f = .ok r → r.slots.map (·.1) = f.outputs ∧ WK r.slots) (env : Env) :
+    ∀ (gen : List MFunc) (rs : List FuncResult), runGenWith R env gen = .ok rs →
+      (rs.flatMap (·.slots)).map (·.1) = gen.flatMap (·.outputs) ∧ WK (rs.flatMap (·.slots)) := by
+  intro gen
+  induction gen with
+  | nil =>
+    intro rs h
+    simp only [runGenWith, pure, Except.pure] at h
+    cases h
+    exact ⟨rfl, fun o sh mk cells hm => by simp at hm⟩
+  | cons f rest ih =>
+    intro rs h
+    simp only [runGenWith, bind, Except.bind] at h
+    split at h
+    · cases h
+    · next r hr =>
+      split at h
+      · cases h
+      · next rs1 hrs1 =>
+        simp only [pure, Except.pure] at h
+        cases h
+        obtain ⟨k1, w1⟩ := hR env f r hr
+        obtain ⟨k2, w2⟩ := ih rs1 hrs1
+        refine ⟨by simp [List.flatMap_cons, k1, k2], ?_⟩
+        intro o sh mk cells hm
+        simp only [List.flatMap_cons, List.mem_append] at hm
+        rcases hm with hm | hm
+        · exact w1 o sh mk cells hm
+        · exact w2 o sh mk cells hm
+
+theorem runGensWith_slots (R : Env → MFunc → M FuncResult)
+    (hR : ∀ env f r, R env f = .ok r → r.slots.map (·.1) = f.outputs ∧ WK r.slots) :
+    ∀ (gens : List (List MFunc)) (env : Env) (rs : List FuncResult) (envF : Env), runGensWith R gens env = .ok (rs, envF) →
+      (rs.flatMap (·.slots)).map (·.1) = gens.flatten.flatMap (·.outputs) ∧ WK (rs.flatMap (·.slots)) ∧
+      envF.store = env.store ++ rs.flatMap (·.slots) := by
+  intro gens
+  induction gens with
+  | nil =>
+    intro env rs envF h
+    simp only [runGensWith, pure, Except.pure] at h
+    cases h
+    exact ⟨rfl, fun o sh mk cells hm => by simp at hm, by simp⟩
+  | cons gen rest ih =>
+    intro env rs envF h
+    simp only [runGensWith, bind, Except.bind] at h
+    split at h
+    · cases h
+    · next rs1 hrs1 =>
+      split at h
+      · cases h
+      · next p hp =>
+        obtain ⟨more, envF'⟩ := p
+        simp only [pure, Except.pure] at h
+        cases h
+        obtain ⟨k1, w1⟩ := runGenWith_slots R hR env gen rs1 hrs1
+        obtain ⟨k2, w2, st⟩ := ih _ more envF hp
+        refine ⟨by simp [List.flatMap_append, k1, k2], ?_, by rw [st]; simp [List.flatMap_append]⟩
+        intro o sh mk cells hm
+        simp only [List.flatMap_append, List.mem_append] at hm
+        rcases hm with hm | hm
+        · exact w1 o sh mk cells hm
+        · exact w2 o sh mk cells hm
+
+/-! ### distinct output names, from a predicate on the function list -/
+
+/-- no two functions share an output name and no function names an output twice (`Pipeline` validation) -/
+def UniqueOutputs (fsd : List MFunc) : Prop :=
+  (fsd.Pairwise fun a b => ∀ o, o ∈ a.outputs → o ∉ b.outputs) ∧ ∀ f ∈ fsd, f.outputs.Nodup
+
+theorem mem_layers_flatten (fsd : List MFunc) : ∀ (fuel : Nat) (done : List String) (rest : List MFunc) (f : MFunc),
+    f ∈ (layers fsd fuel done rest).flatten → f ∈ rest := by
+  intro fuel
+  induction fuel with
+  | zero => intro done rest f h; simp [layers] at h
+  | succ fuel ih =>
+    intro done rest f h
+    simp only [layers] at h
+    split at h
+    · simp at h
+    · split at h
+      · simp at h
+      · simp only [List.flatten_cons, List.mem_append] at h
+        rcases h with h | h
+        · exact (List.mem_filter.mp h).1
+        · exact (List.mem_filter.mp (ih _ _ f h)).1
+
+theorem pairwise_sym_of_mem {α} {R : α → α → Prop} (hsym : ∀ a b, R a b → R b a) (l : List α) (h : l.Pairwise R) (a b : α)
+    (ha : a ∈ l) (hb : b ∈ l) (hne : a ≠ b) : R a b := by
+  induction h with
+  | nil => cases ha
+  | cons hx _ ih =>
+    rcases List.mem_cons.mp ha with rfl | ha' <;> rcases List.mem_cons.mp hb with rfl | hb'
+    · exact absurd rfl hne
+    · exact hx b hb'
+    · exact hsym _ _ (hx a ha')
+    · exact ih ha' hb'
+
+theorem layers_pairwise (fsd : List MFunc) (D : MFunc → MFunc → Prop) (hsym : ∀ a b, D a b → D b a) :
+    ∀ (fuel : Nat) (done : List String) (rest : List MFunc), rest.Pairwise D → (layers fsd fuel done rest).flatten.Pairwise D := by
+  intro fuel
+  induction fuel with
+  | zero => intro done rest _; simp [layers]
+  | succ fuel ih =>
+    intro done rest hp
+    simp only [layers]
+    split
+    · simp
+    · split
+      · simp
+      · rw [List.flatten_cons, List.pairwise_append]
+        refine ⟨hp.sublist List.filter_sublist, ih _ _ (hp.sublist List.filter_sublist), ?_⟩
+        intro x hx y hy
+        have hy' := List.mem_filter.mp (mem_layers_flatten fsd _ _ _ y hy)
+        have hxr : x ∈ rest := (List.mem_filter.mp hx).1
+        apply pairwise_sym_of_mem hsym rest hp x y hxr hy'.1
+        intro e
+        subst e
+        have := hy'.2
+        simp only [Bool.not_eq_eq_eq_not, Bool.not_true, List.any_eq_false, decide_eq_true_eq] at this
+        exact this x hx rfl
+
+theorem nodup_flatMap_outputs : ∀ l : List MFunc, (l.Pairwise fun a b => ∀ o, o ∈ a.outputs → o ∉ b.outputs) →
+    (∀ f ∈ l, f.outputs.Nodup) → (l.flatMap (·.outputs)).Nodup := by
+  intro l
+  induction l with
+  | nil => intro _ _; simp
+  | cons f rest ih =>
+    intro hp hn
+    rw [List.flatMap_cons, List.nodup_append]
+    obtain ⟨h1, h2⟩ := List.pairwise_cons.mp hp
+    refine ⟨hn f (by simp), ih h2 fun g hg => hn g (by simp [hg]), ?_⟩
+    intro a ha b hb e
+    subst e
+    obtain ⟨g, hg, hbg⟩ := List.mem_flatMap.mp hb
+    exact h1 g hg a ha hbg
+
+/-- **distinct output names among everything the uninterrupted run stores**, from `UniqueOutputs` of the function list -/
+theorem freshSlots_nodup (fsd : List MFunc) (inputs : List (String × Val)) (ui : List (String × List Nat)) (hu : UniqueOutputs fsd) :
+    ((freshSlots fsd inputs ui).map (·.1)).Nodup := by
+  unfold freshSlots pfLoop
+  cases hpre : preRun fsd inputs ui with
+  | error e => simp
+  | ok sm =>
+    obtain ⟨shapes, masks⟩ := sm
+    simp only []
+    cases hl : runGensWith (runFuncWith opArray fsd shapes masks) (generations fsd) { inputs := inputs, store := [] } with
+    | error e => simp
+    | ok p =>
+      obtain ⟨rs, envF⟩ := p
+      simp only []
+      rw [(runGensWith_slots _ (fun env f r h => runFuncWith_slots fsd shapes masks env f r h) _ _ rs envF hl).1]
+      apply nodup_flatMap_outputs
+      · exact layers_pairwise fsd _ (fun a b h o ho hb => h o hb ho) _ _ _ hu.1
+      · intro f hf
+        exact hu.2 f (mem_layers_flatten fsd _ _ _ f hf)
 
 end PF.ResumeFS
 
